@@ -112,6 +112,39 @@ def oracle_svclife(case, impl, want="all"):
     return None
 
 
+def oracle_runloop(case, impl, want="all"):
+    """the daemon's real run loop (host/service.Run) with a scripted Runner, stated directly:
+    c16: "or the service is stopped": SIGTERM (from a terminal also SIGHUP / interrupt) makes the loop call Stop() and return;
+         a failed Start() is returned, never followed by a running service;
+    c20: a service that started gets exactly one Stop() - the call the router Restore and the deactivation hang on - when a
+         stopping signal arrives, and none before."""
+    import re
+    f = case.split(" ")
+    m = re.match(r"calls=([\w,]*) end=(\S+)$", impl)
+    if not m:
+        return "the run loop did not run: " + impl[:80]
+    calls, end = [c for c in m.group(1).split(",") if c], m.group(2)
+    fg, ok = f[1] == "fg", f[2] == "ok"
+    sigs = [] if f[3] == "-" else f[3].split(",")
+    stopping = [s for s in sigs if s == "TERM" or (fg and s in ("HUP", "INT"))]
+    if calls[:1] != ["start"]:
+        return "the run loop did not begin with Start()"
+    if not ok:
+        if end != "ret=err" or "stop" in calls:
+            return "Start() failed but the run loop went on (calls %s, end %s)" % (calls, end)
+        return None
+    if stopping:
+        if calls.count("stop") != 1:
+            return ("the service was started and %s arrived, but Stop() was called %d times: the OnStopped hooks (router Restore, "
+                    "deactivation) %s" % (stopping[0], calls.count("stop"), "never run" if calls.count("stop") == 0 else "run again"))
+        if end != "ret=nil":
+            return "Stop() was called after %s but the process did not end (%s)" % (stopping[0], end)
+    else:
+        if end == "died":
+            return "the process died on signals %s without calling Stop(): nothing undoes the router set-up" % sigs
+    return None
+
+
 def oracle_svc(case, impl):
     return oracle_svclife(case, impl, "c16") if case.startswith("svclife ") else oracle_svcstart(case, impl)
 
@@ -119,7 +152,9 @@ def oracle_svc(case, impl):
 SPEC = dict(
     lean_module="NV.Props.C16",
     areas=[dict(name="listen", n_quick=150, n_thorough=2400, shards_thorough=8, oracle=oracle_listen, timeout=900),
-           dict(name="svcstart", binary="main.test", n_quick=6, n_thorough=24, shards_thorough=1, oracle=oracle_svc, timeout=400)],
+           dict(name="svcstart", binary="main.test", n_quick=6, n_thorough=24, shards_thorough=1, oracle=oracle_svc, timeout=400),
+           # the run loop that turns signals into Stop(): host/service.Run in a child process with a scripted Runner
+           dict(name="runloop", n_quick=60, n_thorough=1200, shards_thorough=2, oracle=lambda c, i: oracle_runloop(c, i, "c16"), timeout=600)],
     level_text="The start-up/shutdown protocol of ListenAndServe is modelled as a small-step system with ANY number of listener threads; "
                "kernel-checked invariants over all interleavings give: no bound socket at return, the bind error is the one returned "
                "(no external stop), no deadlock after cancellation and a strictly decreasing rank (termination). The pre-repair protocol "
